@@ -276,7 +276,16 @@ class RZILTransformer(Transformer):
             return self.add_op(
                 Assignment("set_return_val", AssignmentType.ASSIGN, ret_val, src)
             )
+        if items[0] in ["goto", "continue", "break"]:
+            raise NotImplementedError(f"{items[0]} statements are not supported.")
         return items  # Pass them upwards
+
+    def labeled_stmt(self, items):
+        raise NotImplementedError("Labels, case and default statements are not supported.")
+
+    def expr(self, items):
+        # Only reached for "expr , assignment_expr" (single children are inlined).
+        raise NotImplementedError("Comma expressions are not supported.")
 
     def relational_expr(self, items):
         self.ext.set_token_meta_data("relational_expr")
